@@ -161,7 +161,7 @@ def run(ctx):
         (nodes, edges, init), r = gen_states(ctx, "MC_GfaQueries", cfg, dot=True, coverage=True, timeout=1500)
         g = tours.Graph({k: None for k in nodes}, edges, init)
         g._to_term = {}
-        if g.nedges <= (150000 if ctx.thorough else 40000):
+        if g.nedges <= (150000 if ctx.thorough else 60000):
             beh = tours.transition_tour(g, max_len=16)
             covered = "every edge (transition tour)"
         else:
